@@ -3,6 +3,7 @@ import json
 import os
 
 from analysis.affine import Affine, Form, entails_le
+import re
 from analysis.flow import must_cross, return_points, term_pt, trace_op
 from analysis.guards import facts_at, field_writes, struct_constructions
 from analysis.mir import callee_matches, op_place
@@ -24,7 +25,7 @@ EXPLANATION = (
     "emitted as query/body (or the declared body_len parameter). (decode-is-lossless) every field of decode's Ok value is the "
     "unmodified from_le_bytes of its bytes (no mask, no narrowing), and decode's rejections are exactly {fewer than 48 bytes, "
     "spec != 0x1507, length != 48+q+b}: a new rejection (e.g. of reserved bits or unknown format codes) is reported. The rules "
-    "are value-independent, so they hold for all field values and capacity relations. (stream-fills-frame, shared with C02) the read side: a frame read from a stream into a reusable buffer leaves the buffer exactly the frame (len == 48+q+b, filled by read_exact). Not decided: what the OS / tungstenite "
+    "are value-independent, so they hold for all field values and capacity relations. (accept-guards, shared with C02) the parse half of the round trip: Message::from_slice and MessageView::from_slice accept only behind a successful Header::decode and 48+q+b <= len(buf), and what they return as query is buf[48..48+q] and as body buf[48+q..48+q+b] (payload-slots: each range is traced into its own slot of Message::new / the returned view, so swapped or shifted payloads are reported). (stream-fills-frame, shared with C02) the read side: a frame read from a stream into a reusable buffer leaves the buffer exactly the frame (len == 48+q+b, filled by read_exact). Not decided: what the OS / tungstenite "
     "does with the bytes afterwards."
 )
 ASSUMPTIONS = ["by-value iteration over a fixed array yields its elements once each in index order", "to_le_bytes/from_le_bytes are inverse; Vec::extend_from_slice/append/copy_within/copy_from_slice have std semantics",
@@ -229,15 +230,33 @@ def run(facts, R):
     _c02.derive_summaries(cx)
     _c02.derive_decode_summary(cx)
     _c02.stream_fills_frame(cx, facts, R)
+    # ... and the slice parsers hand back buf[48..48+q] as the query and buf[48+q..48+q+b] as the body (shared with C02)
+    _c02.accept_guards(cx, facts, R)
 
 
 def decode_rejections(facts, R):
     b = facts.body("header::Header::decode")
     s = Sym(b)
     errs = blocks_assigning_variant(b, "std::result::Result", "Err")
+    # ... and rejections that arrive through `?` from an (inlined) validating half: the residual of an `Err(e)` built there
+    via_q = []
+    for i, t in b.calls():
+        if t["callee"]["name"] == "from_residual" and not t["dest"]["p"] and t["dest"]["l"] == 0 and i in b.live_blocks():
+            from analysis.sym import split_eval
+            alts = split_eval(s, i, len(b.blocks[i]["stmts"]), lambda v_, t=t: v_.op(t["args"][0])) or [({}, s.at(i).op(t["args"][0]))]
+            for _, e in alts:
+                for x in walk(e):
+                    if x[0] == "agg" and x[1] == "std::result::Result" and x[2] == "Err":
+                        via_q.append((i, x, t))
+                        break
+                else:
+                    via_q.append((i, None, t))
     kinds = []
-    for i, j, st in errs:
-        v = s.rvalue(st["rv"])
+    rows_ = [(i, s.rvalue(st["rv"]), st) for i, j, st in errs] + [(i, v, t) for i, v, t in via_q]
+    for i, v, st in rows_:
+        if v is None:
+            R.bad("decode-is-lossless", b.path, "rejection:?", "decode propagates an error with `?` whose origin is not a rejection built in decode", st.get("span"))
+            continue
         inner = dict(v[3])["0"]
         variant = inner[2] if inner[0] == "agg" else render(inner)
         fs = texts(facts_at(b, s, facts, i))
@@ -248,7 +267,7 @@ def decode_rejections(facts, R):
     R.check(sorted(set(kinds)) == ["InvalidHeaderLength", "InvalidSpec", "LengthMismatch"], "decode-is-lossless", b.path, "exactly three rejections",
             "decode's rejection set is %s" % sorted(set(kinds)), b.span, "short input, wrong magic, inconsistent length")
     # no `?`-propagated rejections either
-    brs = [t for i, t in b.calls() if t["callee"]["name"] == "from_residual"]
+    brs = [t for i, t in b.calls() if t["callee"]["name"] == "from_residual" and (not any(i == q[0] for q in via_q) or any(i == q[0] and q[1] is None for q in via_q))]
     R.check(not brs, "decode-is-lossless", b.path, "no other early exits", "decode has %d `?` exits" % len(brs), b.span)
 
 
@@ -351,8 +370,18 @@ def emission(facts, R):
         cs = Sym(c)
         ws = [(i, t) for i, t in c.calls() if t["callee"]["name"] == "write_all"]
         if ws:
-            R.check(len(ws) == 1 and render(cs.op(ws[0][1]["args"][1])).endswith(("resp.body", "resp__body")), "emission-normal-form", c.path, "server body writer emits resp.body",
-                    "body writer emits %s" % [render(cs.op(t["args"][1])) for _, t in ws], c.span)
+            emitted = render(cs.op(ws[0][1]["args"][1]))
+            if not emitted.endswith(("resp.body", "resp__body")):
+                # the slice may be bound once outside the closure (`let body = &resp.body`) and captured: look at what was captured
+                m_ = re.match(r"^\(?\*?\(?arg1\.(\w+)\)?\)?$", emitted)
+                hs_ = Sym(hb)
+                for i_, j_, st_ in hb.assigns():
+                    rv_ = st_["rv"]
+                    if m_ and rv_.get("agg") == "closure" and rv_.get("def") == c.path and m_.group(1) in (rv_.get("fields") or []):
+                        emitted = render(hs_.at(i_, j_).op(rv_["ops"][rv_["fields"].index(m_.group(1))]))
+            R.check(len(ws) == 1 and emitted.rstrip(")").endswith(("resp.body", "resp__body", ".body")) and ("route_request_view" in emitted or emitted.endswith(("resp.body", "resp__body"))),
+                    "emission-normal-form", c.path, "server body writer emits resp.body",
+                    "body writer emits %s" % [emitted], c.span)
     hs = Sym(hb)
     for i, t in hb.calls():
         if callee_matches(t["callee"], "io::write_message_streaming"):
